@@ -10,16 +10,16 @@ from .. import reach
 PROPERTY = "C17"
 LEVEL = "exploration"
 ANCHORS = ["src/pylife/stress/equistress.py", "src/pylife/stress/stresssignal.py"]
-SHARDS = {"quick": 4, "thorough": 16}
+SHARDS = {"quick": 8, "thorough": 16}
 WATCHDOG = {"quick": 900, "thorough": 3000}
 SOAK = {"thorough": ['tests/stress/test_equistress.py', 'tests/strength']}      # contract soak (pv/contracts_more.py) under the repository's own tests
 REQUIRED_CLASSES = {t: ["tensor:uniaxial", "tensor:pure_shear", "tensor:hydrostatic", "tensor:repeated_eigenvalues", "tensor:zero",
-                        "tensor:generic", "tensor:nearly_hydrostatic", "magnitude<1e-6", "magnitude>1e6", "magnitude:beyond_1e100", "tensor:rotated_hydrostatic", "tensor:shear_only_in_plane_12", "tensor:shear_only_in_plane_13", "tensor:shear_only_in_plane_23", "input:scalar", "input:columns", "input:integer_typed_columns", "sign:near_tie_not_judged",
+                        "tensor:generic", "tensor:nearly_hydrostatic", "magnitude<1e-6", "magnitude>1e6", "magnitude:beyond_1e100", "tensor:rotated_hydrostatic", "tensor:shear_only_in_plane_12", "tensor:shear_only_in_plane_13", "tensor:shear_only_in_plane_23", "input:scalar", "input:columns", "input:integer_typed_columns", "accessor_kept_frame_updated_in_place", "arrays_reused_by_the_caller", "sign:near_tie_not_judged",
                         "sign:exact_tie_unrotated"]
                     for t in ("quick", "thorough")}
 REQUIRED_MONITORS = ["rotation_invariant:eigen_based", "rotation_invariant:mises^2", "homogeneous", "definition:mises", "definition:tresca",
                      "definition:principals", "definition:abs_max_principal", "mises<=tresca<=2/sqrt3*mises", "signed:magnitude",
-                     "signed:sign", "signed:zero_indicator_gives_+1", "abs_max_principal:exact_tie_is_positive", "accessor==functions", "finite_and_real", "integer_components==float_components"]
+                     "signed:sign", "signed:zero_indicator_gives_+1", "abs_max_principal:exact_tie_is_positive", "accessor==functions", "finite_and_real", "integer_components==float_components", "independent_of_array_identity_and_history"]
 RULE = ("seeded symmetric 3x3 tensors (uniaxial, pure shear, hydrostatic, repeated eigenvalues, zero, generic; magnitudes 1e-3..1e4) x "
         "random rotations (QR of a Gaussian matrix, det +1) x positive scale factors; scalar components and column arrays; the "
         "accessor df.equistress.* row by row. Definitions come from numpy.linalg.eigvalsh of the assembled tensor. Signs are not "
@@ -227,6 +227,26 @@ def run_case(case, ctx):
         if not (ulps and same(np.asarray(acc, dtype=float), col) and list(acc.index) == list(df.index)):
             ok, bad = False, {"function": name, "columns": col, "scalar_calls": one, "accessor": np.asarray(acc, dtype=float)}
     ctx.check("accessor==functions", ok, observed=bad, tags=mech)
+    # ---- an accessor object that is kept while the frame is updated in place: every evaluation sees the current numbers
+    ctx.tag("accessor_kept_frame_updated_in_place")
+    dfk = df.copy()
+    eqk = dfk.equistress
+    first_ = {name: np.asarray(getattr(eqk, name)(), dtype=float) for name in fns}
+    dfk[["S11", "S22", "S33", "S12", "S13", "S23"]] = arr * 2.5
+    dfk.loc[dfk.index[0], "S12"] = float(arr[0, 3]) * 2.5 + 0.5 * float(np.max(np.abs(arr)) + 1.0)
+    ok, bad = True, None
+    for name in fns:
+        kept_ = np.asarray(getattr(eqk, name)(), dtype=float)
+        fresh_ = np.asarray(getattr(dfk.copy().equistress, name)(), dtype=float)
+        if not bool(np.all((kept_ == fresh_) | (np.isnan(kept_) & np.isnan(fresh_)))):
+            ok, bad = False, {"function": name, "kept_accessor": kept_, "fresh_accessor": fresh_, "before_update": first_[name]}
+    ctx.check("accessor==functions", ok, observed=bad, detail="accessor kept, frame updated in place")
+    # ---- plain functions: independent of array identity and of earlier calls
+    from .. import alias
+    ctx.tag("arrays_reused_by_the_caller")
+    for name in ("mises", "tresca", "abs_max_principal", "signed_mises_trace"):
+        alias.probe(ctx, "independent_of_array_identity_and_history", fns[name], [arr[:, j].copy() for j in range(6)],
+                    [arr[::-1, j].copy() * 0.7 for j in range(6)], detail={"function": name})
     # ---- integer typed components (solver output in Pa, kPa ...): the same numbers as for the float copy of the columns
     ctx.tag("input:integer_typed_columns")
     dt = [np.int32, np.int64][int(rng.integers(0, 2))]
